@@ -223,7 +223,7 @@ func init() {
 			if tier == "thorough" {
 				return 1000000
 			}
-			return 20000
+			return 50000
 		},
 		Budget: func(tier string) time.Duration {
 			if tier == "thorough" {
